@@ -1,11 +1,14 @@
+from .. import smt_units
+
 PROP = {
     "kani_groups": ["hk_otlp"],
-    "smt": [],
+    "smt": [smt_units.unit_otlp_dispatch],
     "level_text": "Decides the accept/decline predicate of each of the three OTLP event encoders. The dispatch in "
                   "<OtlpInner as Emitter>::emit (first configured and accepting signal in the order metrics, traces, logs; "
-                  "discard counter otherwise) is NOT decided here: OtlpInner owns a JoinHandle and three emit_batcher "
-                  "senders and cannot be driven under Kani without duplicating emit's logic; it is left to the MIR "
-                  "control-flow engine (E2-cfg).",
+                  "discard counter otherwise) cannot be driven under Kani (OtlpInner owns a JoinHandle and three emit_batcher "
+                  "senders); it is decided by the MIR control-flow engine (E2-cfg unit_otlp_dispatch: over all valuations of "
+                  "'signal configured' x 'encoder accepted', exactly one effect per path - the send of the first configured and "
+                  "accepting signal in the order metrics, traces, logs - and the discard counter iff none).",
     "technique": "bounded model checking (Kani/CBMC) of MetricsEventEncoder/TracesEventEncoder/LogsEventEncoder::encode_event(..).is_some() "
                  "over symbolic events, with a RawEncoder that does not serialise (the decision is taken before E::encode)",
     "functions": [
@@ -20,7 +23,7 @@ PROP = {
               "harness arm); extent in {none, point, range} symbolic; metric value in {missing, i64, f64, [i64; 2], [f64; 2], text, bool} "
               "(a constant of each arm, the numbers symbolic over their full range); metric_agg in {absent, count, sum, other text} "
               "symbolic; quick tier: the representative subset named q, thorough: all 6 x 7 kind/value combinations",
-    "outside": "the dispatch in <OtlpInner as Emitter>::emit and the discard counter (see level_text); which endpoint finally receives "
+    "outside": "which endpoint finally receives "
                "the record; empty sequences (a gauge without points is declined, a sum of nothing is accepted), sequences longer "
                "than 2, nested sequences, unsigned/128-bit values beyond i64 (sval streams them as text: declined) — not in the "
                "bound; kind values that are neither text nor a captured emit::Kind; serialisation of the accepted record (C13)",
